@@ -122,6 +122,24 @@ CLAIMED = {
         technique="Lean 4 proof + relational spec evaluated on real output + model correspondence + "
                   "config table tie (decide)",
         ref="6 C10"),
+    "C12": dict(
+        text="Lean 4 model of CallResolver and of the lazy nodes (__str__, __eq__, eval) with 23 theorems: "
+             "the operator tables read from the live module are Python's operators (tie by `decide`), "
+             "C12_same_tree_partial (a tree of the formula grammar that is PowCompatible is Python's own "
+             "reading of its tokens), C12_eval_partial (lazy evaluation equals Python evaluation of the "
+             "tree: operators, positional then keyword arguments, nested calls, literals), C12_brace "
+             "({e} is I(e)), C12_name / _whitespace / _parentheses / _variants (the term name is the "
+             "canonical text of the tokens with grouping removed), C12_name_injective_partial; "
+             "counterexamples for D15 (sign vs **, ** chains, comparison chains), D16 (names drop "
+             "grouping), D27 (1 == True merges calls) by `decide`. Differential run against Python's own "
+             "eval/ast of the same text over all operator trees with <= 2 operators + 2 000 random ones; "
+             "failures in the Lean-delimited classes with the model-predicted output are known findings.",
+        note="Trusted: Lean kernel; translator; that PyStratified is Python's parse relies on the "
+             "unambiguity of Python's grammar (argued, and checked against Python's ast on every explored "
+             "case); the value domain is partial (int/float one kind, no boolean-column arithmetic).",
+        technique="Lean 4 proof (structural induction on the AST, reuse of the C01 theorems) + operator "
+                  "table tie + differential correspondence against Python's eval",
+        ref="6 C12"),
     "C13": dict(
         text="Lean 4 model of Treatment / Sum / CategoricalBox / C,T,S with 31 theorems for every number "
              "of levels and every reference / omitted level: shapes, reference row zero, zero-sum columns, "
